@@ -84,7 +84,7 @@ C12_EXCL = ('no_initless_subclass_of_builtin_error', 'no_recursive_link', 'no_fa
 def budget(tier):
   if tier == 'thorough':
     return {'cases': 9000, 'max_depth': 4, 'budget': 16, 'kbudget': 10, 'max_chain': 4, 'shrink_s': 90, 'wall_cap': 3000}
-  return {'cases': 800, 'max_depth': 3, 'budget': 12, 'kbudget': 8, 'max_chain': 3, 'shrink_s': 20, 'wall_cap': 600}
+  return {'cases': 720, 'max_depth': 3, 'budget': 12, 'kbudget': 8, 'max_chain': 3, 'shrink_s': 20, 'wall_cap': 600}
 
 
 # ------------------------------------------------------------------------------------------------
@@ -1004,6 +1004,8 @@ def shard(ctx, acc):
       if reason.startswith('generator_slip'):
         acc.notes.append(reason)
       return
+    if 'no_initless_subclass_of_builtin_error' not in C12_EXCL:
+      case['strict_type'] = True
     fails, info = run_case(case)
     f = spec['fail']
     depth = binfo.get('depth', 0)
